@@ -98,7 +98,11 @@ def gen_case(rng, tier, i):
         ss = ([1, 2] if w == 0 else [3, 4]) if two else subs
         r0 = rng.random()
         if r0 < 0.05:
-            ops.append(["bind", w, rng.choice(list(PFX)), rng.choice(list(NSP)), rng.randint(0, 1)])
+            # binds come in bursts, so that a prefix or a namespace is re-bound (override and no-override clashes)
+            for _k in range(rng.randint(1, 3)):
+                ops.append(["bind", w, rng.choice(list(PFX)), rng.choice(list(NSP)), rng.randint(0, 1)])
+            if rng.random() < 0.5:
+                ops.append(["ns", w])
             continue
         if r0 < 0.08:
             ops.append(["pass", w, rng.choice(PASS_KINDS)])
@@ -328,7 +332,13 @@ def run_impl(case):
             continue
         route = op[6] if kind in ("add", "remove") and len(op) > 6 else None
         if kind == "bind":
+            taken = st.namespace(PFX[op[2]]) is not None or st.prefix(NSP[op[3]]) is not None
             st.bind(PFX[op[2]], NSP[op[3]], override=bool(op[4]))
+            if not op[4] and taken and _bindings(st)[:2] != bind_before:
+                viol.append(f"bind: op {k} bind({op[2]}, {op[3]}, override=False) through the wrapper changed existing bindings "
+                            f"{bind_before} -> {_bindings(st)[:2]}")
+            if op[4] and (st.namespace(PFX[op[2]]) != NSP[op[3]] or st.prefix(NSP[op[3]]) != PFX[op[2]]):
+                viol.append(f"bind: op {k} bind({op[2]}, {op[3]}, override=True) through the wrapper did not take effect")
         elif kind == "pass":
             what = op[2]
             if what == "open":
